@@ -388,6 +388,8 @@ def argmin(self, axis=None, skipna=False):
 
     # along axis: single axis value
     if axis is not None: # res is DimArray
+        if not is_DimArray(res): # 1-D case: scalar position
+            return obj.axes[idx].values[res]
         res.values = obj.axes[idx].values[res.values] 
         return res
 
@@ -411,6 +413,8 @@ def argmax(self, axis=None, skipna=False):
 
     # along axis: single axis value
     if axis is not None: # res is DimArray
+        if not is_DimArray(res): # 1-D case: scalar position
+            return obj.axes[idx].values[res]
         res.values = obj.axes[idx].values[res.values] 
         return res
 
